@@ -68,6 +68,10 @@ def case_strategy():
                 if mk == "leaf":
                     m["ann"] = ["obj"] if force_obj else draw(st.sampled_from(LEAF_ANNS))
                 m["rec"] = "self" if (mk != "leaf" and kind == "root" and draw(st.integers(0, 3)) == 0) else "recurse"
+                if mk != "leaf" and m["rec"] == "recurse" and draw(st.integers(0, 2)) == 0:
+                    # a starred call: its shape is not known statically, so it takes the run-time path of the
+                    # rewriter (a per-function helper stored in the method's globals)
+                    m["dyn"] = True
                 key = (R.canon(GR.method_ann(m)), m["prio"])
                 if key in own and draw(st.integers(0, 2)):
                     continue  # (1 time in 3 the node registers the signature again: the newer method replaces the older)
@@ -185,7 +189,8 @@ class Check:
     level = "exploration"
     rule = (
         "Hypothesis: derivation graph of 2-6 functions (roots, copies/variants to depth 3, two children of one parent, "
-        "mixin fan-in 2-3) x placement of recursive walkers (recurse / own name) and leaf methods x nested inputs "
+        "mixin fan-in 2-3) x placement of recursive walkers (recurse / own name; 1 recurse walker in 3 with a starred "
+        "call, i.e. on the rewriter's run-time path) and leaf methods x nested inputs "
         "(depth <= 3) x 2-10 calls alternating between nodes; results compared structurally with a reference "
         "interpreter. Non-trivial = a derived node is called on a nested input and a method the node itself adds or "
         "overrides is used somewhere in the result; distinct by case hash."
